@@ -497,7 +497,36 @@ func init() {
 		if t.Bef == nil || !t.UTC.IsFalse() {
 			panic(unsupported("ZoneBounds of a local time not built by a modelled constructor"))
 		}
-		// two paths: the time lies before the zone's transition (no start, end = transition) or after it
+		// the time lies before the zone's transition (end = the transition) or after it (start = the
+		// transition); the other bound is either absent (zero time) or a far transition of the real zone,
+		// which the two-interval view does not contain: an arbitrary local time at least two days away
+		far := func(s *State, later bool) TimeV {
+			c := e.tc
+			v := func(n string, lo, hi int64) *Term {
+				x := c.Fresh("zb."+n, SBV(64))
+				s.assume(e.inRange(x, lo, hi))
+				return x
+			}
+			t := TimeV{Y: v("y", 1, 9999), M: v("m", 1, 12), D: v("d", 1, 31), H: v("h", 0, 23), Mi: v("mi", 0, 59), S: v("s", 0, 59), Ns: e.bv64(0), UTC: c.False}
+			s.assume(c.BVSle(t.D, e.daysIn(s, t.M, t.Y)))
+			zv := e.zv
+			ny, nm, nd := e.nextDay(s, zv.Y, zv.M, zv.D)
+			n2y, n2m, n2d := e.nextDay(s, ny, nm, nd)
+			py, pm, pd := e.prevDay(s, zv.Y, zv.M, zv.D)
+			p2y, p2m, p2d := e.prevDay(s, py, pm, pd)
+			lexLess := func(a1, a2, a3, b1, b2, b3 *Term) *Term {
+				return c.Or(c.BVSlt(a1, b1), c.And(c.Eq(a1, b1), c.Or(c.BVSlt(a2, b2), c.And(c.Eq(a2, b2), c.BVSlt(a3, b3)))))
+			}
+			if later {
+				s.assume(lexLess(n2y, n2m, n2d, t.Y, t.M, t.D))
+			} else {
+				s.assume(lexLess(t.Y, t.M, t.D, p2y, p2m, p2d))
+			}
+			off := c.Fresh("zb.off", SBV(64))
+			s.assume(e.inRange(off, -50400, 50400))
+			t.Off, t.Bef = off, c.Bool(!later)
+			return t
+		}
 		var out []exit
 		befOK := e.feasible(st, t.Bef, "ZoneBounds before")
 		aftOK := !befOK || e.feasible(st, e.tc.Not(t.Bef), "ZoneBounds after")
@@ -508,11 +537,17 @@ func init() {
 				e.stats.States++
 			}
 			s2.assume(t.Bef)
+			s3 := s2.fork()
+			e.stats.States++
 			out = append(out, exit{st: s2, kind: exitReturn, val: TupleV{zero, e.transitionTime(s2)}})
+			out = append(out, exit{st: s3, kind: exitReturn, val: TupleV{far(s3, false), e.transitionTime(s3)}})
 		}
 		if aftOK {
 			st.assume(e.tc.Not(t.Bef))
+			s3 := st.fork()
+			e.stats.States++
 			out = append(out, exit{st: st, kind: exitReturn, val: TupleV{e.transitionTime(st), zero}})
+			out = append(out, exit{st: s3, kind: exitReturn, val: TupleV{e.transitionTime(s3), far(s3, true)}})
 		}
 		return out
 	}
